@@ -153,6 +153,43 @@ pub struct FamilyInfo {
     pub stubs: &'static [&'static str],
     /// run every scenario in a crash-isolated way (BEGIN markers, resource limits)
     pub crash_isolated: bool,
+    /// judge every scenario on a fresh OS thread (ceremony families: yes; the microsecond-scale
+    /// decoder and HID families: no, a thread per case would cost twenty times the case)
+    pub fresh_thread: bool,
+}
+
+/// Judge one scenario on a fresh OS thread, so that thread-local state inside the code under
+/// test (thread_rng, caches a change might add) is a function of the scenario alone and never
+/// leaks from one run into the next. Returns the violations, or the panic message and location
+/// if the oracle / harness itself panicked.
+pub fn judge_on_fresh_thread(fam: &dyn Family, scn: &Scenario, stats: &mut Stats) -> Result<Vec<Violation>, String> {
+    if !fam.info().fresh_thread {
+        return std::panic::catch_unwind(std::panic::AssertUnwindSafe(|| fam.judge(scn, stats))).map_err(|p| {
+            let msg = p
+                .downcast_ref::<String>()
+                .cloned()
+                .or_else(|| p.downcast_ref::<&str>().map(|s| s.to_string()))
+                .unwrap_or_else(|| "panic".into());
+            format!("{msg} @ {}", crate::take_panic_location())
+        });
+    }
+    std::thread::scope(|sc| {
+        let h = std::thread::Builder::new().stack_size(8 << 20).spawn_scoped(sc, || {
+            let r = std::panic::catch_unwind(std::panic::AssertUnwindSafe(|| fam.judge(scn, stats)));
+            r.map_err(|p| {
+                let msg = p
+                    .downcast_ref::<String>()
+                    .cloned()
+                    .or_else(|| p.downcast_ref::<&str>().map(|s| s.to_string()))
+                    .unwrap_or_else(|| "panic".into());
+                format!("{msg} @ {}", crate::take_panic_location())
+            })
+        });
+        match h {
+            Ok(h) => h.join().unwrap_or_else(|_| Err("judge thread died".into())),
+            Err(e) => Err(format!("cannot spawn judge thread: {e}")),
+        }
+    })
 }
 
 pub trait Family: Sync {
